@@ -358,7 +358,6 @@ func (b *BitSet) Trim() {
 			}
 			return
 		}
-		i--
 	}
 	b.data = nil
 }
